@@ -9,7 +9,7 @@ HERE = os.path.dirname(os.path.dirname(os.path.abspath(__file__)))
 CHECKS = {
     "C06": ("model_checking",
             "explicit-state BFS of real MemoryCache op histories to state closure vs byte-LRU reference model",
-            "Every reachable canonical state of a real MemoryCache under the op alphabet (4 size classes incl. exact-fit and oversize, weak-referenceable values, memento-only puts, reads, forgets) for two budgets is visited and the accounting/LRU/staleness invariants are evaluated on each transition; plus all backend-level histories to a depth with an open() audit proving predicted hits never touch the store.",
+            "Every reachable canonical state of a real MemoryCache under the op alphabet (4 size classes incl. exact-fit and oversize, weak-referenceable values, memento-only puts, reads, forgets) for two budgets is visited and the accounting/LRU/staleness invariants are evaluated on each transition; plus all backend-level histories to a depth with an open() audit proving predicted hits never touch the store; plus every schedule (1 preemption; thorough 2) of two threads hitting / filling the cache of a real backend.",
             "Sizes are those sys.getsizeof reports; pandas values (randomised size estimator) are outside the alphabet; closure is for 3 (quick) / 4 (thorough) keys.",
             "DESIGN.md §3 C06"),
 }
@@ -21,7 +21,7 @@ CHECKS["C05"] = ("model_checking",
     "DESIGN.md §3 C05")
 CHECKS["C07"] = ("model_checking",
     "explicit-state BFS over storage histories with whole-store integrity scan (hash, dedup, link, immutability) after every transition",
-    "The C05 exploration on the filesystem backend with byte-identical results from different calls/functions, partitions, exceptions key-override writes of two different calls to one shared key containing '#' and '/' (also by writers that seed the process-wide PRNG before writing), and write faults (ENOSPC mid-object) with and without memory cache; after every transition every stored object is re-hashed, links are followed, duplicates counted, and every live memento's bytes are compared with the bytes recorded when it was created.",
+    "The C05 exploration on the filesystem backend with byte-identical results from different calls/functions, partitions, exceptions key-override writes of two different calls to one shared key containing '#' and '/' (also by writers that seed the process-wide PRNG before writing), write faults (ENOSPC in the data object, or in the memento after the data object was stored) with and without memory cache; after every transition every stored object is re-hashed, links are followed, duplicates counted, and every live memento's bytes are compared with the bytes recorded when it was created. Concurrent part: two threads writing under one key override / writing byte-identical results, every schedule up to 1 preemption (thorough 2), then everything read back through a fresh backend.",
     "Depth-bounded (quick 2-3, thorough 3-5); crash/fault interleavings of a write are C08's subject, not this check's.",
     "DESIGN.md §3 C07")
 
@@ -33,25 +33,25 @@ CHECKS["C19"] = ("model_checking",
 
 CHECKS["C08"] = ("fault_enumeration",
     "exhaustive fault enumeration: every mutating file-system op and every read-open of each scenario x every fault kind (real process death / injected I/O error), recovery in a fresh process; thorough: every second fault during recovery",
-    "For 11 memoization scenarios (string, dedup across functions, key override, partition, exception, forget+recall, custom metadata, two arguments, None + shared partition blob, result larger than the memory cache, partition merged over the partition of a nested call) with and without memory cache, the fault-free op log (every mutating op and every file opened for reading while memoizing) is recorded and every (op, fault kind) pair is executed: crash before, crash leaving an empty file, crash leaving half the bytes, error on open (write or read)/mkdir/unlink, ENOSPC mid-write. Callers of a process that survives a reported error must not see it, and that process keeps calling (three more calls of everything: correct values, no exception, at most one recomputation); after restart in a fresh process every call must return the correct value, raise nothing and stop recomputing after one successful write.",
+    "For 11 memoization scenarios (string, dedup across functions, key override, partition, exception, forget+recall, custom metadata, two arguments, None + shared partition blob, result larger than the memory cache, partition merged over the partition of a nested call) with and without memory cache, the fault-free op log (every mutating op and every file opened for reading while memoizing) is recorded and every (op, fault kind) pair is executed: crash before, crash leaving an empty file, crash leaving half the bytes or all but the last 1 / 8 bytes, error on open (write or read)/mkdir/unlink, ENOSPC mid-write. Callers of a process that survives a reported error must not see it, and that process keeps calling (three more calls of everything: correct values, no exception, at most one recomputation); after restart in a fresh process every call must return the correct value, raise nothing and stop recomputing after one successful write.",
     "Faults are process death and reported errors at the calls the library issues (audit cross-check makes un-intercepted mutations a harness error); no reordering of completed writes by the OS.",
     "DESIGN.md §3 C08")
 
 CHECKS["C09"] = ("model_checking",
     "stateless model checking of real threads under a controlled scheduler (sys.settrace baton + scheduler-aware library locks), iterative preemption bounding",
-    "Every schedule with at most 1 preemption (quick; 2 thorough) of 2-3 threads calling memoized functions is executed on the real runner/storage/cache code for {cold, warm store, warm cache} x {same key, different keys} x 4 backends, plus automatically versioned functions (two unrelated functions; two callers whose nested call trees share a sub-tree, cold and warm), a batch against a single call of one of its elements, results that are None and callers that ignore the result, and three callers of a call whose first execution ends with a not-to-be-memoized exception (bound 2 at call granularity: one caller sees the failure, the body runs twice, never twice at once; fixture bodies are traced), with scheduling points at every line of the runner, call-stack, storage and cache code and at every library lock acquisition; additionally every schedule with at most 2 (thorough 3) preemptions at runner granularity (line points in the runner, call points in storage) for the cold-store scenarios. Per execution: values, no escaped exception, exactly one body run per un-memoized call, no deadlock/livelock, cache accounting consistent and final cache equal to a sequential outcome.",
+    "Every schedule with at most 1 preemption (quick; 2 thorough) of 2-3 threads calling memoized functions is executed on the real runner/storage/cache code for {cold, warm store, warm cache} x {same key, different keys} x 4 backends, plus automatically versioned functions (two unrelated functions; two callers whose nested call trees share a sub-tree, cold and warm), a batch against a single call of one of its elements, results that are None and callers that ignore the result, call trees that cross (ping(1)->pong(0) against pong(1)->ping(0)), different calls with byte-identical results or one shared key override (afterwards read back through a fresh backend), and three callers of a call whose first execution ends with a not-to-be-memoized exception (bound 2 at call granularity: one caller sees the failure, the body runs twice, never twice at once; fixture bodies are traced), with scheduling points at every line of the runner, call-stack, storage and cache code and at every library lock acquisition; additionally every schedule with at most 2 (thorough 3) preemptions at runner granularity (line points in the runner, call points in storage) for the cold-store scenarios. Per execution: values, no escaped exception, exactly one body run per un-memoized call, no deadlock/livelock, cache accounting consistent and final cache equal to a sequential outcome.",
     "Switches happen only at line boundaries of the traced files and at lock acquisitions (thorough adds opcode-level points in MemoryCache); pure string/path helpers are atomic; no Python race detector exists in the image; schedules beyond the preemption bound are not explored.",
     "DESIGN.md §3 C09")
 
 CHECKS["C01"] = ("model_checking",
     "exhaustive enumeration of edit histories over generated programs, each edition executed on the real library in fresh or long-lived processes, differential oracle = un-decorated rendering of the current edition",
-    "20 program skeletons (root -> dependency chains over memento / explicit-version / plain functions through bare, module.attr, alias, decorator-wrapper and nested-call references, references inside comprehensions / lambdas / functools.partial / conditionals / default values / nested defs, reference cycles; globals of 7 types, class constants, dotted-head bindings, late definitions, hidden dynamic edges, memento callees in a second package, several variables holding equal values) x every edit site (incl. copying one variable's value to another) x every edit sequence up to length 1 (quick) / 2 (thorough) x delivery cross-process / in-process re-exec+rebind / in-process reload / in-place mutation of tracked lists and dicts. After every edit every auto-versioned function is called with an explicit argument and with its defaults (hidden-edge programs also through force_local / partial / with_context_args clones); the result must equal the un-memoized run of the current edition or be UndeclaredDependencyError.",
+    "30 program skeletons (root -> dependency chains over memento / explicit-version / plain functions through bare, module.attr, alias, decorator-wrapper and nested-call references, references inside comprehensions / lambdas / functools.partial / conditionals / default values / nested defs, reference cycles, attributes that do not exist yet, a helper in the package __init__.py; globals of 7 types, class constants, dotted-head bindings, late definitions, hidden dynamic edges, memento callees in a second package, several variables holding equal values) x every edit site (incl. copying one variable's value to another) x every edit sequence up to length 1 (quick) / 2 (thorough) x delivery cross-process / in-process re-exec+rebind / in-process reload / in-place mutation of tracked lists and dicts. After every edit every auto-versioned function is called with an explicit argument and with its defaults (hidden-edge programs also through force_local / partial / with_context_args clones); the result must equal the un-memoized run of the current edition or be UndeclaredDependencyError.",
     "Programs come from a fixed skeleton family, not arbitrary Python; explicit-version functions are edited only together with a version bump (of every explicit function reaching the edit); unsupported variable types and plain helpers in other packages are outside the statement.",
     "DESIGN.md §3 C01")
 
 CHECKS["C03"] = ("model_checking",
     "exhaustive enumeration of (program x hash seed x definition-order permutation x import order x first-query-order permutation) configurations, each executed in a real interpreter started with that PYTHONHASHSEED",
-    "For the C01 program skeletons plus constant-heavy, same-leaf-in-two-namespaces, in-place-fill (two fills per dict), set literals of strings / tuples / bytes, helpers and variables named like builtins, factory-made helpers sharing one code object, and cross-package (memento and plain functions of a second package referenced from the root and through a helper) programs: one fresh interpreter per seed (quick 9, thorough 33 seeds) imports every program under every permutation of the definition order of its functions and module-level statements (up to 5), both import orders, and queries versions in every order; each function must have exactly one version over the whole matrix. Then a second process with a different seed and reversed definition order re-runs all roots on the store the first filled: zero function bodies, equal values.",
+    "For the C01 program skeletons plus constant-heavy, same-leaf-in-two-namespaces, in-place-fill (two fills per dict), set literals of strings / tuples / bytes, helpers and variables named like builtins, factory-made helpers sharing one code object, default values that cannot be encoded (object() marker, instance without __repr__), one global name used by two modules for different things, and cross-package (memento and plain functions of a second package referenced from the root and through a helper) programs: one fresh interpreter per seed (quick 9, thorough 33 seeds) imports every program under every permutation of the definition order of its functions and module-level statements (up to 5), both import orders, and queries versions in every order; each function must have exactly one version over the whole matrix. Then a second process with a different seed and reversed definition order re-runs all roots on the store the first filled: zero function bodies, equal values.",
     "Hash seeds are a finite stated subset of 2^32 (the run fails as vacuous unless at least two distinct set iteration orders were exercised); programs come from the skeleton family.",
     "DESIGN.md §3 C03")
 
@@ -69,7 +69,7 @@ CHECKS["C13"] = ("model_checking",
 
 CHECKS["C04"] = ("model_checking",
     "bounded-exhaustive enumeration of argument values x signatures x all presentations of a binding, executed on the real reference/hash code and a filesystem store; oracle = independent implementation of the documented hash + iff-relation over all value pairs",
-    "Every value of the argument alphabet (27 atoms incl. look-alikes across bool/int/float/str, -0.0, NaN, inf, non-ASCII, dates, naive/aware datetimes; lists and string-keyed dicts incl. both insertion orders and keys that need JSON escaping; function references with partial arguments) is bound on 1-parameter functions and in combinations on 2/3-parameter, defaulted, keyword-only and **kwargs signatures, and presented in every well-defined way (positional/keyword splits, keyword orders, one or two partial applications). All presentations must give one key equal to the documented SHA-256 of the canonical JSON, one body run, and the body must receive exactly the normalized values; all ordered value pairs must share a key iff their canonical encodings are equal; context-argument dictionaries likewise; a three-level call chain and the batch form are run under each context (every level computed again, nested keys equal the documented hash with that context); every ordered pair of five signatures is used as definition and re-definition of one function in a running process (module rewritten + reload) with all presentations checked after each.",
+    "Every value of the argument alphabet (27 atoms incl. look-alikes across bool/int/float/str, -0.0, NaN, inf, non-ASCII, dates, naive/aware datetimes; lists and string-keyed dicts incl. both insertion orders and keys that need JSON escaping; pandas.Timestamp / OrderedDict; function references with partial arguments) is bound on 1-parameter functions and in combinations on 2/3-parameter, defaulted, keyword-only and **kwargs signatures, and presented in every well-defined way (positional/keyword splits, keyword orders, one or two partial applications). All presentations must give one key equal to the documented SHA-256 of the canonical JSON, one body run, and the body must receive exactly the normalized values; all ordered value pairs must share a key iff their canonical encodings are equal; context-argument dictionaries likewise; a three-level call chain and the batch form are run under each context (every level computed again, nested keys equal the documented hash with that context); every ordered pair of five signatures is used as definition and re-definition of one function in a running process (module rewritten + reload) with all presentations checked after each; a function argument re-versioned in the running process must change the key.",
     "Positional arguments of a partial application placed after a keyword partial of an earlier parameter are not a well-defined presentation (the library lets the positional overwrite the keyword) and are not generated; var-positional / positional-only signatures are excluded by the statement.",
     "DESIGN.md §3 C04")
 
@@ -105,7 +105,7 @@ CHECKS["C16"] = ("model_checking",
 
 CHECKS["C02"] = ("model_checking",
     "bounded-exhaustive enumeration of result values x backends x call modifiers, each executed on the real runner/storage; differential oracle = the plain function",
-    "Every value of the result alphabet (None, bool, ints, floats incl. -0.0/NaN/inf, str, bytes, date, naive/aware datetime, Timestamp, numpy arrays of the seven dtypes empty / length 1 / with NaN, pandas Index / Series / DataFrame empty / tiny / object / NaN, in-memory and on-disk partitions, eight exception classes incl. two-argument, nested, function-local, same-named-in-two-modules and not-to-be-memoized ones; closed under list / dict to depth 1 quick, 2 thorough) on memory, filesystem and filesystem+cache (8 B, 4 KiB, 1 MiB) backends with no modifier, ignore_result, force_local and with every call of the function stored under one shared key override (the neighbour call writes the same override key with other content); exception values are exercised after every other exception class of the alphabet (incl. a same-named class of another module) was recorded and replayed in the process: call (body once, equal and usable value), call (no body, equal value of the same type / same exception class or memoized-exception type with the message), memento() result type equals the classification of the value read back, forget, call (body once), call; a neighbour call of the same function and a twin function with byte-identical result stay memoized; a batch [memoized, new, memoized] returns the right slots.",
+    "Every value of the result alphabet (None, bool, ints, floats incl. -0.0/NaN/inf, str, bytes, date, naive/aware datetime, Timestamp, numpy arrays of the seven dtypes empty / length 1 / with NaN, pandas Index / Series / DataFrame empty / tiny / object / NaN, in-memory and on-disk partitions, eight exception classes incl. two-argument, nested, function-local, same-named-in-two-modules and not-to-be-memoized ones; closed under list / dict to depth 1 quick, 2 thorough) on memory, filesystem and filesystem+cache (8 B, 4 KiB, 1 MiB) backends with no modifier, ignore_result, force_local, under context arguments (forget and memento through the modified function; the plain call with the same argument stays memoized) and with every call of the function stored under one shared key override (the neighbour call writes the same override key with other content); exception values are exercised after every other exception class of the alphabet (incl. a same-named class of another module) was recorded and replayed in the process: call (body once, equal and usable value), call (no body, equal value of the same type / same exception class or memoized-exception type with the message), memento() result type equals the classification of the value read back, forget, call (body once), call; a neighbour call of the same function and a twin function with byte-identical result stay memoized; a batch [memoized, new, memoized] returns the right slots.",
     "pandas values have <= 100 rows; equality is type-exact and NaN-aware; local runner.",
     "DESIGN.md §3 C02")
 CHECKS["C17"] = ("model_checking",
